@@ -1,5 +1,6 @@
 import SSVerif.Proofs.JsonFormat
 import SSVerif.Proofs.JsonRoundTrip
+set_option linter.unusedSimpArgs false
 /-! C14 helper lemmas: `format_seg_align` (words > phones > states) in both passes -/
 namespace SSVerif.Json
 
